@@ -35,6 +35,7 @@ func NewWorkSpace(dbType string, rootDir string, ordinal int64, pubKey *pocec.Pu
 
 	if !bytes.Equal(pubKey.SerializeCompressed(), mdb.PubKey().SerializeCompressed()) ||
 		bitLength != mdb.BitLength() {
+		mdb.Close()
 		return nil, ErrMassDBDoesNotMatchWithName
 	}
 
